@@ -294,6 +294,8 @@ def _worker_init():
     faulthandler.enable()
     import logging
     logging.disable(logging.CRITICAL)
+    import warnings
+    warnings.filterwarnings('ignore')
 
 
 def _run_chunk(args):
